@@ -78,6 +78,8 @@ impl UnixStreamConnect {
                 Err(e) => return Err(e),
             }
 
+            #[cfg(may_verif)]
+            may_queue::verif::point(may_queue::verif::site::IO_UNIX_CONNECT_EAGAIN, 0);
             if self.io_data.io_flag.load(Ordering::Relaxed) != 0 {
                 continue;
             }
@@ -98,7 +100,11 @@ impl EventSource for UnixStreamConnect {
         crate::scheduler::get_scheduler()
             .get_selector()
             .add_io_timer(&self.io_data, Duration::from_secs(2));
+        #[cfg(may_verif)]
+        may_queue::verif::point(may_queue::verif::site::IO_UNIX_CONNECT_SUB_ARMED, 0);
         io_data.co.store(co);
+        #[cfg(may_verif)]
+        may_queue::verif::point(may_queue::verif::site::IO_UNIX_CONNECT_SUB_STORED, 0);
 
         // there is event, re-run the coroutine
         if io_data.io_flag.load(Ordering::Acquire) != 0 {
